@@ -281,3 +281,6 @@ META = dict(
     assumptions=["relations between separately rounded stored values are asserted with slack k*0.5e-4 as the property allows", "the rounded-ness check is structural: the stored term must be a round() application (or an int/bool/None)"],
     explanation="one assertion per relation named in the property, decided by z3 for all candle values on every feasible path",
 )
+
+# families added after the seeding rounds (kept next to the original bound so that MANIFEST / evidence stay current)
+META["bounds"] = dict(META["bounds"], quick=META["bounds"]["quick"] + "; added after the seeding rounds: " + 'rounded-ness after every writer of readings; definitions within k half-units for signed late inputs; relations for streams given as capitalised dicts / dicts / lists; averages of a boolean series; TR / ATR / Donchian / KC on Heikin-Ashi candles')
